@@ -571,7 +571,9 @@ func (c *Ctx) nullChunkConsistent() {
 // compiles, passes vet and never matches: "no such key" is then no longer turned into
 // ChunkMissing and every router, cache and failover group takes a miss for a failure.
 func (c *Ctx) valueErrorTypes() {
-	isValueType := func(t types.Type) bool { return typeName(t) == "github.com/minio/minio-go/v6.ErrorResponse" || strings.HasSuffix(t.String(), "minio-go/v6.ErrorResponse") && !strings.HasPrefix(t.String(), "*") }
+	isValueType := func(t types.Type) bool {
+		return typeName(t) == "github.com/minio/minio-go/v6.ErrorResponse" || strings.HasSuffix(t.String(), "minio-go/v6.ErrorResponse") && !strings.HasPrefix(t.String(), "*")
+	}
 	isPtrTo := func(t types.Type) (types.Type, bool) {
 		p, ok := t.Underlying().(*types.Pointer)
 		if !ok {
